@@ -28,6 +28,13 @@ def _dotdot_len_only(c, p):
     return bool(m) and m.group(1) == m.group(2) and int(m.group(3)) > 2048
 
 
+def _enhanced_root_len_only(c, p):
+    m = re.search(r"directory enhanced:/: first record is b'\\x00' \((\d+), (\d+)\), expected '\.' with extent \((\d+), 2048\)", p.detail)
+    return bool(m) and m.group(1) == m.group(3) and int(m.group(2)) > 2048
+
+
+# rule id -> (expected(c): True = must be reported, False = must not, None = may (data dependent);
+#             accept(c, problem): is this particular report the known one?)
 KNOWN = {
     # UEFI 5.3.2: PartitionEntryArrayCRC32 covers NumberOfPartitionEntries*SizeOfPartitionEntry bytes;
     # pycdlib computes it over the 2 or 3 used entries only.
@@ -35,7 +42,15 @@ KNOWN = {
     # ECMA-119 6.8.2.2 / 9.1: '..' describes the parent directory; pycdlib leaves its data length at
     # 2048 when the parent directory has grown beyond one sector (/MANY/SUB/.. in the 'bigsub' test images).
     'dotdot-wrong': (lambda c: bool(c.get('bigsub')), _dotdot_len_only),
+    # The root record inside the enhanced (ISO 9660:1999) descriptor keeps data length 2048 when the root
+    # directory needs more than one sector, so it disagrees with the '.' record of the root directory.
+    'dot-wrong': (lambda c: None if c['interchange_level'] == 4 else False, _enhanced_root_len_only),
 }
+
+# check_rr_nlink() findings expected on every image with a relocated directory (physical view of the
+# root link count, CL placeholder with st_nlink 2); nothing is expected on the other images.
+NLINK_ON_RELOCATION = {"'.' of /", "'..' of /", "'..' of child b'd1' of /", "'..' of child b'long' of /",
+                       "'..' of child b'many' of /", 'entry of /RR_MOVED/D8'}
 
 VERBOSE = '-v' in sys.argv
 QUICK = '--quick' in sys.argv
@@ -118,12 +133,16 @@ def make_model(c):
     return model
 
 
-def build(c):
+def build(c, filler=0):
     """Build the image for combo c; returns (bytes, model, extras)."""
     level, rr, udf, joliet = c['interchange_level'], c['rock_ridge'], c['udf'], c['joliet']
     iso = pycdlib.PyCdlib()
     iso.new(interchange_level=level, joliet=joliet, rock_ridge=rr, udf=udf, xa=c['xa'], vol_ident='SELFTEST')
     model = make_model(c)
+    if filler:
+        e = Entry('file', ('filler',), blob('filler', filler))
+        e.iso, e.rr, e.joliet, e.udf = (iso_component('filler', False, level),), ('filler',), ('filler',), ('filler',)
+        model.append(e)
 
     def kw(e):
         k = {}
@@ -143,8 +162,8 @@ def build(c):
     symlinks = []
     if rr or udf:
         for name, target in (('sym', 'foo'), ('sym2', '/abs/./path/../x'), ('sym3', 'many/' + 't' * 300 + '/u')):
-            if target.startswith('/') and udf and not rr:
-                pass
+            if not rr and len(target) >= 200:
+                continue        # the long target is only used for Rock Ridge (several SL entries)
             k = {'symlink_path': '/' + iso_component(name, False, level)}
             if rr:
                 k['rr_symlink_name'] = name
@@ -238,7 +257,7 @@ def verify(c, img, model, extras):
         im = reader.read_image(img, check=False)
         for p in im.problems:
             known = KNOWN.get(p.rule)
-            expect(known is not None and known[0](c) and known[1](c, p), 'unexpected violation: %s' % p)
+            expect(known is not None and known[0](c) is not False and known[1](c, p), 'unexpected violation: %s' % p)
             accepted.append(p.rule)
     expect(im.size == len(img) and im.lbs == 2048, 'size/lbs')
     expect(im.n_pvd == 1 and im.pvd['volume_id'].rstrip() == b'SELFTEST', 'pvd')
@@ -415,6 +434,26 @@ def verify(c, img, model, extras):
     return im, accepted
 
 
+def gpt_backup_inside_volume(img):
+    """True if an 'EFI PART' backup header sits in the last 512 bytes and its 16 KiB partition array
+    starts below the end of the ISO volume space (decided from raw bytes, not through the reader)."""
+    if img[512:520] != b'EFI PART' or img[len(img) - 512:len(img) - 504] != b'EFI PART':
+        return False
+    space = struct.unpack_from('<I', img, 16 * 2048 + 80)[0] * 2048
+    return len(img) - 512 - 128 * 128 < space
+
+
+def check_gpt_clobber(c, img):
+    im = reader.read_image(img, check=False)
+    rules = set(p.rule for p in im.problems)
+    ov = reader.overlaps(im)
+    expect(ov and all(a[2].startswith('gpt-backup') or b[2].startswith('gpt-backup') for a, b in ov),
+           'backup GPT inside the volume space not reported by overlaps(): %r' % (ov[:2],))
+    if c['udf']:
+        expect('udf-anchor-missing' in rules, 'clobbered last anchor not reported')
+    expect(rules <= set(KNOWN) | {'udf-anchor-missing'}, 'unexpected rules on clobbered image: %r' % rules)
+
+
 # ---------------------------------------------------------------------------------------------
 # mutation tests: corrupt one thing in a valid image, expect the matching rule
 
@@ -526,7 +565,13 @@ def mutations(img, im):
         yield 'ce offset', 'ce-out-of-sector', put(img, c0 + 12, struct.pack('<I', 2040) + struct.pack('>I', 2040))
         yield 'ce block', 'ce-out-of-volume', put(img, c0 + 4, struct.pack('<I', 1 << 22) + struct.pack('>I', 1 << 22))
         yield 'ce shared', 'ce-overlap', put(img, c1 + 4, img[c0 + 4:c0 + 28])
-        yield 'ce length', 'rr-len-mismatch', put(img, c0 + 20, struct.pack('<I', ln - 1) + struct.pack('>I', ln - 1))
+        yield 'ce length -1', 'rr-entry-overrun', put(img, c0 + 20, struct.pack('<I', ln - 1) + struct.pack('>I', ln - 1))
+        yield 'ce length +2', 'rr-len-mismatch', put(img, c0 + 20, struct.pack('<I', ln + 2) + struct.pack('>I', ln + 2))
+        blk1, off1, ln1 = l1.rr.ce[0]
+        if off1 >= 8:
+            yield 'ce partial overlap', ('ce-overlap', ('rr-len-mismatch', 'rr-entry-overrun')), put(img, c0 + 4, struct.pack('<I', blk1) + struct.pack('>I', blk1)
+                                                          + struct.pack('<I', off1 - 8) + struct.pack('>I', off1 - 8)
+                                                          + struct.pack('<I', 12) + struct.pack('>I', 12))
         ph = [n for n in flatten(root).values() if n.rr is not None and n.rr.cl is not None]
         if ph:
             p = ph[0]
@@ -589,8 +634,9 @@ def run_mutations(img, im, label):
     n = 0
     for item in mutations(img, im):
         name, rule, m = item
-        if m is None:
-            continue
+        also = ()
+        if isinstance(rule, tuple):       # (rule that must be reported, rules that may be raised before it)
+            rule, also = rule
         n += 1
         assert len(m) == len(img), name
         try:
@@ -598,7 +644,7 @@ def run_mutations(img, im, label):
             got = None
         except reader.Malformed as e:
             got = e.rule
-        if got != rule:
+        if got != rule and got not in also:
             soft = reader.read_image(m, check=False).problems if got is not None else []
             raise AssertionError('%s: mutation %r gave %r, expected %r (all: %r)' % (label, name, got, rule, [p.rule for p in soft]))
         if rule is not None:
@@ -607,7 +653,7 @@ def run_mutations(img, im, label):
                 soft = reader.read_image(m, check=False)
                 assert rule in [p.rule for p in soft.problems], (label, name, [p.rule for p in soft.problems])
             except reader.Malformed as e:
-                assert e.rule == rule, (label, name, e.rule)
+                assert e.rule == rule or e.rule in also, (label, name, e.rule)
     return n
 
 
@@ -640,6 +686,93 @@ def run_fuzz(img, rounds, seed):
 
 # ---------------------------------------------------------------------------------------------
 
+def extra_cases():
+    """Small dedicated images: features outside the matrix and known pycdlib deviations."""
+    def write(iso):
+        out = io.BytesIO()
+        iso.write_fp(out)
+        iso.close()
+        return out.getvalue()
+    n = 0
+    # duplicate PVD, hidden flag
+    iso = pycdlib.PyCdlib()
+    iso.new(interchange_level=2, joliet=3, rock_ridge='1.09')
+    iso.add_fp(io.BytesIO(b'abc'), 3, iso_path='/HIDDEN.;1', rr_name='hidden', joliet_path='/hidden')
+    iso.add_fp(io.BytesIO(b'def'), 3, iso_path='/SHOWN.;1', rr_name='shown', joliet_path='/shown')
+    iso.set_hidden(iso_path='/HIDDEN.;1')
+    iso.duplicate_pvd()
+    img = write(iso)
+    im = reader.read_image(img)
+    expect(im.n_pvd == 2 and [v['type'] for v in im.vds] == [1, 1, 2, 255], 'duplicate PVD: %r' % [v['type'] for v in im.vds])
+    kids = {c.name: c for c in im.iso_root.children}
+    expect(kids[b'HIDDEN.;1'].hidden and kids[b'HIDDEN.;1'].flags & 1 and not kids[b'SHOWN.;1'].hidden, 'hidden flag')
+    expect(kids[b'SHOWN.;1'].date is not None and len(kids[b'SHOWN.;1'].date) == 7, 'recording date')
+    m = put(img, 17 * 2048 + 40, b'X')
+    try:
+        reader.read_image(m)
+        raise AssertionError('differing duplicate PVD accepted')
+    except reader.Malformed as e:
+        expect(e.rule == 'pvd-duplicates-differ', 'duplicate PVD rule: %s' % e.rule)
+    n += 1
+    # synthetic multi-extent file: give F01 the identifier of F00 and set the multi-extent flag on F00
+    iso = pycdlib.PyCdlib()
+    iso.new(interchange_level=3)
+    for i in range(4):
+        iso.add_fp(io.BytesIO(blob('me%d' % i, 2048 * (i + 1))), 2048 * (i + 1), iso_path='/F%02d.;1' % i)
+    img = write(iso)
+    im = reader.read_image(img)
+    f0, f1 = im.iso_root.children[0], im.iso_root.children[1]
+    m = put(put(img, f1.dr_offset + 33, f0.name), f0.dr_offset + 25, bytes([f0.flags | 0x80]))
+    im2 = reader.read_image(m)
+    g = im2.iso_root.children[0]
+    expect(len(im2.iso_root.children) == 3 and len(g.extents) == 2 and g.length == 2048 * 3 and len(g.records) == 2
+           and reader.read_file(m, g) == blob('me0', 2048) + blob('me1', 4096), 'multi-extent file')
+    expect(not reader.overlaps(im2), 'multi-extent overlaps')
+    try:
+        reader.read_image(put(img, f0.dr_offset + 25, bytes([f0.flags | 0x80])))
+        raise AssertionError('dangling multi-extent flag accepted')
+    except reader.Malformed as e:
+        expect(e.rule == 'dir-not-sorted', 'multi-extent rule: %s' % e.rule)
+    n += 1
+    # known deviation: plain byte order of the whole identifier instead of ECMA-119 9.3
+    iso = pycdlib.PyCdlib()
+    iso.new(interchange_level=3)
+    iso.add_fp(io.BytesIO(b'a'), 1, iso_path='/A.B;1')
+    iso.add_fp(io.BytesIO(b'b'), 1, iso_path='/A.B1;1')
+    im = reader.read_image(write(iso), check=False)
+    expect([p.rule for p in im.problems] == ['dir-not-sorted'] and [c.name for c in im.iso_root.children] == [b'A.B1;1', b'A.B;1'],
+           'sort order deviation: %r' % [str(p) for p in im.problems])
+    n += 1
+    # known deviation: '..' of a directory created inside an already multi-sector directory
+    iso = pycdlib.PyCdlib()
+    iso.new()
+    iso.add_directory('/A')
+    for i in range(60):
+        iso.add_fp(io.BytesIO(b'a'), 1, iso_path='/A/F%02d.;1' % i)
+    iso.add_directory('/A/B')
+    im = reader.read_image(write(iso), check=False)
+    expect([p.rule for p in im.problems] == ['dotdot-wrong'], 'dotdot deviation: %r' % [str(p) for p in im.problems])
+    n += 1
+    # known deviation: root record of the enhanced descriptor is not updated when the root grows
+    iso = pycdlib.PyCdlib()
+    iso.new(interchange_level=4)
+    for i in range(60):
+        iso.add_fp(io.BytesIO(b'a'), 1, iso_path='/F%02d.;1' % i)
+    im = reader.read_image(write(iso), check=False)
+    expect([p.rule for p in im.problems] == ['dot-wrong'] and len(im.enhanced_root.children) == 60,
+           'enhanced root deviation: %r' % [str(p) for p in im.problems])
+    n += 1
+    # a non-image
+    for junk in (b'', b'\x00' * 40000, b'\xff' * 70000, blob('junk', 100000)):
+        try:
+            reader.read_image(junk)
+            raise AssertionError('junk accepted')
+        except reader.Malformed as e:
+            expect(e.rule in ('vd-bad-header', 'vd-no-terminator', 'truncated'), 'junk rule %s' % e.rule)
+    n += 1
+    return n
+
+
 def combos():
     out = []
     i = 0
@@ -670,9 +803,18 @@ def main():
     known_seen = {}
     mutated = 0
     fuzz = [0, 0]
+    clobbered = 0
     for idx, c in enumerate(combos()):
         try:
             img, model, extras = build(c)
+            filler = 0
+            while gpt_backup_inside_volume(img):
+                # known pycdlib defect (see reader.__doc__): the backup GPT is written over the end of
+                # the volume.  The reader must notice; then retry with a slightly larger image.
+                check_gpt_clobber(c, img)
+                clobbered += 1
+                filler += 12 * 2048
+                img, model, extras = build(c, filler)
         except pycdlib.pycdlibexception.PyCdlibInvalidInput as e:
             skipped.append((label(c), str(e)))
             continue
@@ -684,9 +826,12 @@ def main():
         for r in accepted:
             known_seen[r] = known_seen.get(r, 0) + 1
         for k, (pred, _) in KNOWN.items():
-            assert not pred(c) or k in accepted, 'known violation %s did not show up on %s' % (k, label(c))
-        for m in extras.get('nlink', []):
-            nlink_notes.setdefault(m.detail.split(' has ')[0], []).append(label(c))
+            assert pred(c) is not True or k in accepted, 'known violation %s did not show up on %s' % (k, label(c))
+        cats = set(m.detail.split(' has ')[0] for m in extras.get('nlink', []))
+        relocating = bool(c['rock_ridge']) and c['interchange_level'] < 4
+        assert cats == (NLINK_ON_RELOCATION if relocating else set()), 'check_rr_nlink findings on %s: %r' % (label(c), sorted(cats))
+        for k in cats:
+            nlink_notes.setdefault(k, []).append(label(c))
         if 'udf_counts' in extras:
             nf, ef, nd, ed = extras['udf_counts']
             if (nf, nd) != (ef, ed):
@@ -700,13 +845,15 @@ def main():
             ok, bad = run_fuzz(img, 15 if QUICK else 40, idx)
             fuzz[0] += ok
             fuzz[1] += bad
+    extra = extra_cases()
+    print('%d dedicated cases (duplicate PVD, hidden, multi-extent, known deviations, junk) passed' % extra)
     print('%d images verified, %d skipped (combination rejected by pycdlib), %.1fs' % (done, len(skipped), time.time() - t0))
     for s in skipped[:5]:
         print('  skipped: %s: %s' % s)
     print('%d mutations produced the expected rule; fuzz: %d decoded, %d Malformed, no other exception' % (mutated, fuzz[0], fuzz[1]))
-    print('known violations seen: %r' % known_seen)
+    print('known violations seen: %r; backup GPT written over the volume end (detected, image rebuilt larger): %d' % (known_seen, clobbered))
     if nlink_notes:
-        print('check_rr_nlink() findings (not asserted, conventions differ): %d distinct' % len(nlink_notes))
+        print('check_rr_nlink() findings (known, conventions differ; only on images with relocation): %d distinct' % len(nlink_notes))
         for k in sorted(nlink_notes)[:12]:
             print('  %s   [%d images]' % (k, len(nlink_notes[k])))
     if count_notes:
